@@ -128,6 +128,20 @@ LenU5(zz) ==
   \cup {[ConnBase EXCEPT !.will = <<[WillBase EXCEPT !.msg = L(n)]>>] : n \in Lens}
   \cup {[t |-> "PUBACK", id |-> 1, rc |-> 0, rs |-> << >>, up |-> UPn(n)] : n \in {0, 1, 2, 3, 50} \cup (IF Deep THEN {1000} ELSE {})}
   \cup {[PubBase(0) EXCEPT !.up = UPn(n)] : n \in {3, 50}}
+  \* the property section as a whole around the variable byte integer boundaries (a Reason String of n
+  \* bytes makes a section of n + 3 bytes; with a user property of 7 bytes n + 10)
+  \cup UNION {{[t |-> "PUBACK", id |-> 1, rc |-> 16, rs |-> <<L(n)>>, up |-> << >>],
+               [t |-> "PUBREL", id |-> 1, rc |-> 146, rs |-> <<L(n - 7)>>, up |-> UP1],
+               [t |-> "SUBACK", id |-> 1, rs |-> <<L(n)>>, up |-> << >>, codes |-> <<0>>],
+               [t |-> "UNSUBACK", id |-> 1, rs |-> <<L(n)>>, up |-> << >>, codes |-> <<0>>],
+               [DiscBase EXCEPT !.rc = 130, !.rs = <<L(n)>>],
+               [AuthBase EXCEPT !.rc = 24, !.rs = <<L(n)>>],
+               [CaBase EXCEPT !.rs = <<L(n)>>],
+               [PubBase(1) EXCEPT !.ct = <<L(n)>>],
+               [ConnBase EXCEPT !.am = <<L(n)>>],
+               [SubBase EXCEPT !.up = << <<L(n - 2), S0>> >>],
+               [ConnBase EXCEPT !.will = <<[WillBase EXCEPT !.ct = <<L(n)>>]>>]} :
+              n \in (122..127) \cup (IF Deep THEN (16378..16383) \cup (119..135) ELSE {16379, 16380, 16381})}
 
 Univ5(zz) == AckU(0) \cup PubU(0) \cup PubRL(0) \cup SubU(0) \cup UnsubU(0) \cup SubAckU(0) \cup UnsubAckU(0) \cup DiscU(0) \cup AuthU(0) \cup ConnU(0) \cup CaU(0)
          \cup Ping5 \cup LenU5(0)
@@ -198,6 +212,9 @@ Mut1(b) ==
   \* then contradict the frame length
   \cup (IF Len(b) >= 2 /\ b[2] < 127 THEN {<<b[1], b[2] + 1>> \o SubSeq(b, 3, Len(b)) \o <<v>> : v \in {0, 1, 255}} ELSE {})
   \cup (IF Len(b) >= 3 /\ b[2] < 128 /\ b[2] > 0 THEN {<<b[1], b[2] - 1>> \o SubSeq(b, 3, Len(b) - 1)} ELSE {})
+  \* the Remaining Length set to every smaller value: the frame ends at every position inside the packet
+  \* (what follows is then the start of a - usually malformed - next frame)
+  \cup (IF Len(b) >= 3 /\ b[2] < 128 THEN {<<b[1], k>> \o SubSeq(b, 3, Len(b)) : k \in 0..(b[2] - 1)} ELSE {})
 \* (TLC's UNION is quadratic in the number of elements: the parts below are printed with nested
 \* quantifiers instead of being collected into one set first)
 MutBases(ver) == {Full(ver, p) : p \in IF ver = 5 THEN MutBase5 ELSE MutBase3}
@@ -234,7 +251,7 @@ EmitShort(dummy) ==   \* (a parameter keeps TLC from evaluating this when it pro
 
 \* -- outbound limits (C09)
 LimPk(zz) ==
-  LET rss == {<< >>, <<Sab>>, <<L(20)>>}
+  LET rss == {<< >>, <<S0>>, <<Sab>>, <<L(20)>>}
       ups == {<< >>, UP1, UP2, UPn(5)} IN
   {[t |-> t, id |-> 1, rc |-> rc, rs |-> rs, up |-> up] : t \in {"PUBACK", "PUBREL"}, rc \in {0, 146} \cup {16}, rs \in rss, up \in ups}
   \cup {[t |-> t, id |-> 1, rs |-> rs, up |-> up, codes |-> <<0, 128>>] : t \in {"SUBACK", "UNSUBACK"}, rs \in rss, up \in ups}
@@ -251,7 +268,7 @@ LimPkDeep(zz) ==
   \cup {[DiscBase EXCEPT !.rc = 151, !.sei = <<5>>, !.rs = rs, !.up = up] : rs \in {<<L(100)>>, <<L(200)>>}, up \in {<< >>, UPn(12)}}
   \cup {[t |-> t, id |-> 7, rs |-> rs, up |-> up, codes |-> cs] : t \in {"SUBACK", "UNSUBACK"}, rs \in {<< >>, <<L(100)>>},
           up \in {<< >>, UPn(12)}, cs \in {<<0>>, [k \in 1..40 |-> 0]}}
-LimOk(p) == p.t \notin {"PUBACK", "PUBREL"} \/ (p.rc \in AckRc(p.t))
+LimOk(p) == p.t \notin AckKinds \/ (p.rc \in AckRc(p.t))
 Limits == IF Deep THEN (1..260) \cup {16383, 16384, 16390, 2097152, 268435455, 268435460}
           ELSE (1..64) \cup {100, 128, 268435460}
 
